@@ -291,15 +291,15 @@ def run_check(pid, units, tier="quick", seed=0, level="model_checking", rule=Non
           else:
             sums[i] = _empty_summary(jobs[i][1], f"unit {jobs[i][1]}: worker exited with code {p.exitcode} without a result")
           done.append(i)
-        elif time.time() - st > unit_timeout:
+        elif _cpu_s(p.pid) > unit_timeout or time.time() - st > 4 * unit_timeout:
           p.kill()
           p.join(5)
           n = jobs[i][1]
           mode = on_timeout(n) if callable(on_timeout) else on_timeout
           if mode == "skip":
-            sums[i] = _empty_summary(n, None, f"skipped: encoding/solving exceeded the {unit_timeout}s unit budget (nothing claimed)")
+            sums[i] = _empty_summary(n, None, f"skipped: encoding/solving exceeded the {unit_timeout}s CPU unit budget (nothing claimed)")
           else:
-            sums[i] = _empty_summary(n, f"unit {n}: exceeded the {unit_timeout}s unit budget (inconclusive)")
+            sums[i] = _empty_summary(n, f"unit {n}: exceeded the {unit_timeout}s CPU unit budget (inconclusive)")
           done.append(i)
       for i in done:
         running.pop(i)
@@ -309,6 +309,19 @@ def run_check(pid, units, tier="quick", seed=0, level="model_checking", rule=Non
         last_report = time.time()
         print(f"[progress {pid}] pending {len(pending)} running " + ", ".join(f"{jobs[i][1]} ({time.time() - st:.0f}s)" for i, (p_, pc_, st) in running.items()), file=sys.stderr, flush=True)
   return finish(pid, sums, tier, seed, level, rule, time.time() - t0, extra_cov, assumptions)
+
+
+_CLK = os.sysconf("SC_CLK_TCK")
+
+
+def _cpu_s(pid):
+  """CPU seconds of a unit process (own + reaped children): the unit budget is CPU time so that a loaded machine does not turn
+  a passing check into an inconclusive one; wall time is capped separately at 4x the budget."""
+  try:
+    f = open(f"/proc/{pid}/stat").read().rsplit(")", 1)[1].split()
+    return (int(f[11]) + int(f[12]) + int(f[13]) + int(f[14])) / _CLK
+  except Exception:
+    return 0.0
 
 
 def finish(pid, sums, tier, seed, level, rule, wall, extra_cov=None, assumptions=()):
